@@ -6,15 +6,14 @@ the requested output location, the requested log path), for ALL inputs; hence no
 reaches an input that lies apart from those roots.
 
 HTML destinations are derived from the reported relative paths, and the hypothesis about those is
-not assumed but taken from C11 (`C11_normal_form_partial`, `C11_report_members`): the path matched
-against the globs is always clean; the reported path is that path with backslashes turned into
-'/'. Consequently the full statement is FALSE of the code (finding C19-html-backslash-escape): a
-resolved path containing a backslash (a path-mapping value, or a file name on disk) is reported
-with `..` segments that `normalize_path` never saw, and `output.join(add_html_ext(rel))` leaves the
-output directory. Proved negation from a closed witness (replayed on the real binary by
-harness/c19 `dest.rs`), `…_partial` under exactly that guard. A second, harmless deviation is
-std's `with_extension` on a file name `..x` (the result is `…/..`, a directory: `File::create`
-cannot succeed there); it is the other guard of the partial theorem and has its own witness.
+not assumed but taken from C11 (`C11_normal_form`, `C11_report_members`): every reported relative
+path is clean. (Before fix 568afd2 a backslash in a path-mapping value or a name on disk became a
+separator only after normalisation, and `output.join(add_html_ext(rel))` could leave the output
+directory: finding C19-html-backslash-escape, now a fixed case replayed by harness/c19 `dest.rs`.)
+One deviation remains and makes the full statement FALSE of the code, harmlessly: std's
+`with_extension` on a file name `..x` answers `…/..` (a directory: `File::create` cannot succeed
+there, the file just gets no page). Proved negation from that closed witness, `…_partial` under
+exactly that guard.
 
 Trusted, not proved: the kernel resolves `..` as `Confine.resolve` does when the directories exist
 and no component is a symlink; a symlink is only followed when the path is opened; `File::create`
@@ -34,14 +33,14 @@ def SafeRel (rel : Bytes) : Prop :=
 
 /-! ### HTML -/
 
-/-- `add_html_ext` keeps every directory of a clean relative path and renames the file: `n..html`
-for a name without extension (also `.bashrc`), `n.html` otherwise — except `..x`, which std's
-`with_extension` turns into `..`. -/
+/-- `add_html_ext` keeps every directory of a clean relative path and renames the file to `n.html`
+(also for a name without extension and for `.bashrc`, since fix b1b2416) — except `..x`, which
+std's `with_extension` turns into `..`. -/
 theorem C19_add_html_ext_spec (pre : List Bytes) (n : Bytes) (hpre : ∀ s ∈ pre, RealName s)
     (hn : RealName n) :
     addHtmlExt (UPath.join (pre ++ [n])) = UPath.join (pre ++ [htmlName n]) ∧
       htmlName n = (match extOfName n with
-        | none => n ++ 46 :: dotHtml
+        | none => n ++ dotHtml
         | some _ => if dotDotName n then [46, 46] else n ++ dotHtml) :=
   ⟨addHtmlExt_clean pre n hpre hn, rfl⟩
 
@@ -112,36 +111,28 @@ def C19_html_confined_stmt : Prop :=
     rewritePaths cfg fs m = .ok rep →
       ∀ r ∈ rep, ∀ d ∈ htmlEntryDests out (r.rel, true), Under out d.path
 
-/-- Witness (finding C19-html-backslash-escape): the mapping `{"a.c": "x\..\..\..\p.c"}`
-(a `linked-files-map.json` inside an input, or `--path-mapping`) and a file of that name in the
-working directory: key `a.c` is reported as `x/../../../p.c`, and with the output directory
-`o1/o2` the page lands at `/p.c.html`-like two levels above it. -/
+/-- Witness: a source file named `..c` is reported as `..c`, `add_html_ext` answers `..`, and the
+destination is the parent of the output directory (see `C19_html_dotdot_name_escapes`). The former
+witness, a backslash in a path-mapping value (finding C19-html-backslash-escape), was repaired
+by fix 568afd2 and is now a fixed case of harness/c19 `dest.rs`. -/
 theorem C19_html_confined_false : ¬ C19_html_confined_stmt := by
   intro h
-  let bad : Bytes := [120, 92, 46, 46, 92, 46, 46, 92, 46, 46, 92, 112, 46, 99]
-  let r : Rec := ⟨[47, 99, 47] ++ bad, [120, 47, 46, 46, 47, 46, 46, 47, 46, 46, 47, 112, 46, 99], {}⟩
-  have hw := h { mapping := some [([97, 46, 99], bad)] } ⟨[[[99], bad]], [[[99]]], [[99]]⟩
-    [([97, 46, 99], {})] [r] [.normal [111, 49], .normal [111, 50]] (by decide) r (by simp)
-    ⟨.createFile, .out, [.normal [111, 49], .normal [111, 50], .normal [120], .parent, .parent,
-      .parent, .normal [112, 46, 99, 46, 104, 116, 109, 108]]⟩ (by decide)
+  let r : Rec := ⟨[46, 46, 99], [46, 46, 99], {}⟩
+  have hw := h {} ⟨[], [], []⟩ [([46, 46, 99], {})] [r] [.normal [111]] (by decide) r (by simp)
+    ⟨.createFile, .out, [.normal [111], .parent]⟩ (by decide)
   revert hw
   decide
 
-/-- The reported path is always the glob-matched path with backslashes turned into '/', and that
-path is clean (C11). Whenever it contains no backslash (true when path-mapping values, the source
-directory and the names on disk contain none) and its file name is not of the form `..x`, every
-HTML destination of the reported file resolves below the output directory — for every
-configuration, file system, result map and output directory. -/
+/-- Every reported relative path is clean (C11: `C11_normal_form`, at full strength since fix
+568afd2 normalises again after the backslash replacement). Whenever its file name is not of the
+form `..x`, every HTML destination of the reported file resolves below the output directory — for
+every configuration, file system, result map and output directory. -/
 theorem C19_html_confined_partial (cfg : Cfg) (fs : FS) (m : List (Bytes × Cov)) (rep : List Rec)
-    (out : Path) (readable : Bool) (h : rewritePaths cfg fs m = .ok rep) (r : Rec) (hr : r ∈ rep) :
-    ∃ abs rel0 key, resolveKey cfg fs key = .ok (some (abs, rel0)) ∧ r.rel = bsl rel0 ∧
-      (92 ∉ rel0 → (∀ n, fileName r.rel = some n → dotDotName n = false) →
-        ∀ d ∈ htmlEntryDests out (r.rel, readable), d.root = .out ∧ Under out d.path) := by
+    (out : Path) (readable : Bool) (h : rewritePaths cfg fs m = .ok rep) (r : Rec) (hr : r ∈ rep)
+    (hq : ∀ n, fileName r.rel = some n → dotDotName n = false) :
+    ∀ d ∈ htmlEntryDests out (r.rel, readable), d.root = .out ∧ Under out d.path := by
   obtain ⟨kc, _, hk⟩ := (Grcov.Props.C11.C11_report_members cfg fs m rep h r).1 hr
-  obtain ⟨abs, rel0, h1, _, h3, h4⟩ := Grcov.Props.C11.C11_normal_form_partial cfg fs kc r hk
-  refine ⟨abs, rel0, kc.1, h1, h3, ?_⟩
-  intro hb hq
-  obtain ⟨np, enp, hreal⟩ := h4 hb
+  obtain ⟨np, enp, hreal⟩ := Grcov.Props.C11.C11_normal_form cfg fs kc r hk
   by_cases hroot : np.root = true
   · -- an absolute reported path: `gen_html` returns at the `is_relative` test
     intro d hd
@@ -272,11 +263,13 @@ theorem C19_all_dests_confined (ri : RunInput) (ok : RunOK ri) :
     simp only [rootPath, walkEntry, workerDir_eq, List.append_assoc]
     exact under_append_enclosed _ _
       (enclosed_of_plain _ (by rw [plain_append, plain_map_normal]; rfl))
-  · obtain ⟨i, _, rfl⟩ := hd
-    simp only [rootPath, profdataPath, workerDir_eq]
-    rw [join_of_enclosed _ (enc1 _)]
-    simp only [List.append_assoc]
-    exact under_append_enclosed _ _ (by rfl)
+  · obtain ⟨i, _, hd⟩ := hd
+    have : Under ri.tmp (profdataPath (workerDir ri.tmp i)) := by
+      simp only [profdataPath, workerDir_eq]
+      rw [join_of_enclosed _ (enc1 _)]
+      simp only [List.append_assoc]
+      exact under_append_enclosed _ _ (by rfl)
+    rcases hd with rfl | rfl <;> exact this
   · -- the report
     unfold outDests at hd
     cases hk : ri.outKind with
@@ -369,7 +362,8 @@ theorem C19_link_dests (ri : RunInput) (p : Path) :
       unfold gcovDests at hd
       split at hd <;> simp at hd <;> rcases hd with rfl | rfl <;> simp at hk
     · obtain ⟨w, _, rfl⟩ := hd; simp at hk
-    · obtain ⟨i, _, rfl⟩ := hd; simp at hk
+    · obtain ⟨i, _, hd⟩ := hd
+      rcases hd with rfl | rfl <;> simp at hk
     · exfalso
       unfold outDests at hd
       split at hd
@@ -416,7 +410,7 @@ def exRun : RunInput :=
     report := [([115, 114, 99, 47, 97, 46, 99], true), ([46, 98, 97, 115, 104, 114, 99], true),
                ([47, 117, 115, 114, 47, 105, 46, 104], true), ([98, 46, 99], false)] }
 
-example : (dests exRun).length = 31 := by decide
+example : (dests exRun).length = 32 := by decide
 example : resolve (htmlFileDest exRun.out [115, 114, 99, 47, 97, 46, 99])
     = [[111], [104], [115, 114, 99], [97, 46, 99, 46, 104, 116, 109, 108]] := by decide
 example : SafeRel [115, 114, 99, 47, 97, 46, 99] :=
